@@ -237,7 +237,10 @@ def _rebase(eng, rep, rule, fi, cfg, ci, a):
         for m2, d2 in cfg.g.nodes(data=True):
             if d2["ast"] is None or m2 == cn:
                 continue
-            if cfg.path_avoiding(cn, m2, []) is None:
+            # the use must be reachable from the shift along a path on which `v` is not assigned again (reachability and "the old definition reaches the use"
+            # taken separately are satisfied by two different paths when the shift is conditional)
+            redefs = [k for k in cfg.g.nodes if k != n and k != m2 and v in cfg.defs_of(k)[0]]
+            if cfg.path_avoiding(cn, m2, redefs) is None:
                 continue
             st2 = d2["ast"]
             if d2["kind"] == "stmt" and isinstance(st2, ast.Assign) and len(st2.targets) == 1 and isinstance(st2.targets[0], ast.Name) and st2.targets[0].id == v \
